@@ -236,6 +236,30 @@ pub fn c03exec(args: &[String]) {
             frames.push((format!("{set}:{}", s.name), build(&s).bytes, vec![]));
         }
     }
+    // tables with the largest accuracy logs (reads of up to 10 bits at every alignment in the table descriptions)
+    {
+        use crate::frames::{Lits, SeqMode};
+        // many probabilities of 1 first: the remaining mass stays above 255, so value after value is read with 9 or 10 bits
+        let mut ll = vec![1i32; 12];
+        ll.extend_from_slice(&[250, 150, 100]);
+        let mut of = vec![0i32; 20];
+        for (i, p) in [120, 60, 40, 20, 8, 4, 2, 1, 1].iter().enumerate() {
+            of[2 + i * 2] = *p;
+        }
+        let mut ml = vec![1i32; 21];
+        ml.push(491);
+        let seqs = vec![(0u32, 4u32, 3u32), (3, 7, 8), (6, 20, 13), (9, 70, 18), (0, 300, 3), (12, 1100, 23)];
+        let spec = FrameSpec { name: "fse_al9".into(), win_desc: Some(0x10), cks: false, dict_id: None, fcs: None,
+            blocks: vec![Blk::Raw((0..1200u32).map(|i| (i * 7) as u8).collect()), Blk::Comp { lits: Lits::Raw((0..40u8).collect()), seqs, modes: (SeqMode::Fse(9, ll), SeqMode::Fse(8, of), SeqMode::Fse(9, ml)) }],
+            dict: vec![], rep: [1, 4, 8], fcs_width: None, dict_tables: None };
+        let b = build(&spec);
+        if zstd::decode_all(&b.bytes[..]).map(|o| o == b.content).unwrap_or(false) {
+            frames.push(("extra:fse_al9".into(), b.bytes, vec![]));
+        } else {
+            eprintln!("fse_al9 frame not confirmed by libzstd");
+            std::process::exit(2);
+        }
+    }
     let (da, db) = dict_specs();
     let draw: Vec<Vec<u8>> = vec![build_dictionary(da.id, &da.tables, da.rep, &da.content), build_dictionary(db.id, &db.tables, db.rep, &db.content)];
     for s in frame_set("dict") {
